@@ -121,6 +121,7 @@ def run_family(ctx, n_quick=1500, n_thorough=25000):
         hist['family:' + c.get('family', '?')] += 1
         hist['map:' + ('default' if c.get('f2c_default') else 'identity' if all(f == k for f, k in c['f2c']) else 'many-to-one')] += 1
         hist['monitors'] += len(c.get('monitors') or [])
+        hist['built fully positionally in the published parameter order, debug=True (stdout swallowed)'] += sum(1 for uc in [c] + list(c.get('peers') or []) if uc.get('ctor') == 'positional')
         d = first_diff(r.obs, model)
         if d:
             dis.append({'case': c, 'detail': f'line {d[0]}: impl `{d[1]}` model `{d[2]}`', 'impl': r.obs[:300], 'model': (model or [])[:300]})
